@@ -222,6 +222,9 @@ let handle (req : sexp) : sexp =
   | L [A "combine_factorizations"; rows; weights; cart] ->
     let (comb, uniq) = combine_factorizations (List.map zlist (lst rows)) (zlist weights) (nat_of cart) in
     L [zl comb; L (List.map zl uniq)]
+  | L [A "relabel"; perm; labels; codes] ->
+    let (c, u) = relabel (List.map (fun x -> nat_of x) (lst perm)) (List.map zlist (lst labels)) (zlist codes) in
+    L [zl c; L (List.map zl u)]
   | L [A "combine_inplace"; rows; weights; cart] ->
     let rs = List.map zlist (lst rows) in
     let (comb, uniq) = combine_inplace rs (zlist weights) (nat_of cart) in
